@@ -306,6 +306,24 @@ func (s *OuterJoin) receiveRecord(ctx ExecutionContext, produce ProduceFn, myRec
 		}
 		key[i] = value
 	}
+	for i := range key {
+		if key[i].TypeID == octosql.TypeIDNull {
+			// An equality condition never matches a NULL key, so this record matches nothing on the other side.
+			// If this is an outer side, the record is emitted padded with nulls, otherwise it's not part of any output.
+			if (s.isOuterLeft && amLeft) || (s.isOuterRight && !amLeft) {
+				outputValues := make([]octosql.Value, s.leftFieldCount+s.rightFieldCount)
+				if amLeft {
+					copy(outputValues, record.Values)
+				} else {
+					copy(outputValues[s.leftFieldCount:], record.Values)
+				}
+				if err := produce(ProduceFromExecutionContext(ctx), NewRecord(outputValues, record.Retraction, record.EventTime)); err != nil {
+					return fmt.Errorf("couldn't produce: %w", err)
+				}
+			}
+			return nil
+		}
+	}
 
 	firstRecordForThatKeyOnThisSide := false
 	lastRetractionForThatKeyOnThisSide := false
